@@ -606,6 +606,33 @@ pub fn deser(bytes: &[u8]) -> (Out3, Option<Proof>) {
     }
 }
 
+/// The same decoding through the streaming reader (`ReadAdapter` over a chunked `std::io::Read`): proofs
+/// are also read from files and sockets. Only the outcome class is reported.
+pub fn deser_stream(bytes: &[u8]) -> Out3 {
+    struct Chunked<'a> {
+        data: &'a [u8],
+        pos: usize,
+    }
+    impl std::io::Read for Chunked<'_> {
+        fn read(&mut self, buf: &mut [u8]) -> std::io::Result<usize> {
+            let n = buf.len().min(97).min(self.data.len() - self.pos);
+            buf[..n].copy_from_slice(&self.data[self.pos..self.pos + n]);
+            self.pos += n;
+            Ok(n)
+        }
+    }
+    let r = catch(|| {
+        let mut src = Chunked { data: bytes, pos: 0 };
+        let mut adapter = winter_utils::ReadAdapter::new(&mut src);
+        <Proof as winter_utils::Deserializable>::read_from(&mut adapter).map(|_| ())
+    });
+    match r {
+        Err(p) => Out3::Panic(p),
+        Ok(Err(e)) => Out3::Err(format!("{e:?}").split('(').next().unwrap_or("").to_string()),
+        Ok(Ok(())) => Out3::Ok,
+    }
+}
+
 /// Engine `gen`: honest proofs with field maps, round trip and verdicts (C07 part 2; input of C04/C05).
 pub fn gen_main(args: &[String]) -> i32 {
     let cases = wfcommon::util::read_ndjson(&args[0]);
